@@ -12,6 +12,10 @@ Four exhaustive lattices around a payload alphabet:
 Every part walks, next to the powers of two and the round lengths, segment lengths with a prime factor >= 13 (ROUGH: 17, 26, 34,
 39, 52, 65, 130, 514, 998, 1018, 1023, 4082; even and odd, small and large): the grid is fs/nxseg for EVERY nxseg in 16..4096, not
 only for the lengths an FFT library finds convenient.
+Every part also walks the overall LEVEL of the records (the physical unit they are expressed in): LEVELS = 1e-9, 1e-6, 1e-3, 1e6 next
+to the payload's own unit level. Every oracle of the four parts is scale-equivariant (relative errors, ratios), and bilinearity itself
+demands Sy(G Y, G Yref) = G^2 Sy(Y, Yref) for EVERY common gain G, not only for gains near 1: the lattice compares records of levels
+that are many decades apart (values and real/complex kind of the returned array), the class route does the same through run().
 """
 import itertools
 
@@ -22,13 +26,13 @@ from mc.core import Tally
 
 ID = "C13"
 TECHNIQUE = ("exhaustive walk of the configuration lattice (channels, reference subset, segment length, overlap, record "
-             "length, sampling rate, estimator, gain, delay, placement, grid line, amplitudes) around a deterministic "
+             "length, sampling rate, estimator, record level, common gain, gain, delay, placement, grid line, amplitudes) around a deterministic "
              "payload alphabet; oracle on every point: independent Welch reference, algebraic identities, gain/delay and "
              "amplitude-ratio relations")
 LEVEL_TEXT = ("bounded-exhaustive over the stated lattices; the quantifier over all real-valued records is covered by one "
-              "payload alphabet per seed (small-scope hypothesis); the delay tolerances are the property's own calibrated "
+              "payload alphabet per seed (small-scope hypothesis), expressed in five units (levels 1e-9 ... 1e6); the delay tolerances are the property's own calibrated "
               "numbers, so a loss of accuracy inside them is not seen")
-RULE = ("one case = one lattice point (part, channels, reference list, nxseg, overlap, length, fs, estimator[, gain, delay, "
+RULE = ("one case = one lattice point (part, channels, reference list, nxseg, overlap, length, fs, estimator, record level[, gain, delay, "
         "placement | grid line, amplitude tuple | class]); non-trivial iff the spectral matrix has at least two "
         "(channel, reference) pairs, so that pairing/conjugation can go wrong (delay, sine and class cases always have)")
 ASSUMPTIONS = [
@@ -47,12 +51,30 @@ ASSUMPTIONS = [
     "four parts; their overlaps are the fractions of ROUGH_POV, all with nxseg*pov an exact integer (asserted when the lattices are built)",
     "integer nxseg*pov only, as in the quantifier; odd segment lengths (25, 75; 17, 39, 65, 1023) are covered for the periodogram estimator only (grid = k fs/nxseg, "
     "k = 0..floor(nxseg/2); the correlogram route pads to nxseg points of an even-length transform and is not defined for odd nxseg)",
+    "record level (the unit the records are expressed in): the payload records have unit level; every part repeats a stated sub-lattice "
+    "with the whole record multiplied by 1e-9, 1e-6, 1e-3 and 1e6 (all oracles are relative, so the tolerances are unchanged), and the "
+    "lattice evaluates 'scales with the square of a common gain' for common gains G of that size as well: Sy(G Y, G Yref) against "
+    "G^2 Sy(Y, Yref), 1e-10 of the largest entry, with the same kind of array (complex) on both sides - quick: every third lattice point, "
+    "G rotating over the four levels; thorough: every point; on the points whose base record is at level L, G = 1/L (back to unit level). "
+    "Levels are limited to 1e-9 ... 1e6 so that the squares (1e-18 ... 1e12 times the unit-level densities) stay far from under/overflow",
 ]
 
 TOL_WELCH = 1e-10
 TOL_BILIN = 1e-10
 TOL_SINE = 1e-9
 TOL_GRID = 1e-12
+TOL_LEVEL = 1e-10
+
+# overall level of the records (the unit they are expressed in) next to the payload's own unit level
+LEVELS = (1e-9, 1e-6, 1e-3, 1e6)
+
+
+def lev_key(x):
+    return f"{x:.0e}"
+
+
+def kind(a):
+    return "complex" if np.iscomplexobj(a) else "real"
 
 # segment lengths with a prime factor >= 13 ("rough" lengths: not of the form 2^a 3^b 5^c 7^d 11^e) -> overlaps with integer nxseg*pov
 ROUGH_POV = {
@@ -155,7 +177,9 @@ def relmax(a, b):
 
 def lattice_case(item):
     seed, cfg = item
-    idx, n_all, refs, nxseg, pov, nseg, fs, method = cfg
+    idx, n_all, refs, nxseg, pov, nseg, fs, method = cfg[:8]
+    lev = cfg[8] if len(cfg) > 8 else 1.0            # level of the base records
+    far = cfg[9] if len(cfg) > 9 else None           # common gain many decades away from 1 (None: not evaluated on this point)
     t = Tally()
     t.states = 1
     case = {"part": "lattice", "cfg": list(cfg), "seed": seed}
@@ -164,8 +188,10 @@ def lattice_case(item):
     # payload scaled so that different channels have different levels
     X1 = pay(seed, f"c13/X1/{n_all}/{N}", (n_all, N)) * (1.0 + 0.5 * np.arange(n_all))[:, None] + 0.3
     X2 = pay(seed, f"c13/X2/{n_all}/{N}", (n_all, N))
-    R1 = X1[list(refs)].copy()
     R2 = pay(seed, f"c13/R2/{len(refs)}/{N}", (len(refs), N))
+    if lev != 1.0:
+        X1, X2, R2 = lev * X1, lev * X2, lev * R2
+    R1 = X1[list(refs)].copy()
     nr = len(refs)
     key_m = method
 
@@ -226,6 +252,34 @@ def lattice_case(item):
             t.violation(f"bilinear:{k}:{key_m}", f"{method}: {k} violated by {e:.3g} (relative to the largest entry) for {cfg}", case)
         else:
             t.outcomes[f"bilinear-ok:{method}"] += 1
+    if far is not None:
+        # the square law for a common gain many decades away from 1: values and kind (complex) of the returned array
+        try:
+            Sfar = np.asarray(call(far * X1, far * R1)[1])
+        except Exception as e:
+            t.violation(f"raises:{type(e).__name__}:SD_est:{method}", f"SD_est raised {type(e).__name__}: {e} for {cfg} (records x {far:g})", case)
+            return t
+        t.validated += 1
+        where = f"records of level {lev:g} (fs={fs}, nxseg={nxseg}) against the same records x {far:g}"
+        if Sfar.shape != S.shape:
+            t.violation(f"shape:{key_m}", f"{method}: Sy has shape {Sfar.shape} for the records x {far:g}, {S.shape} for the records themselves; {cfg}", case)
+            return t
+        e = float(np.max(np.abs(Sfar - far * far * S))) / (far * far * scale)
+        t.err(f"level:common-gain-squared:{method}", e)
+        good = True
+        if not e <= TOL_LEVEL:
+            good = False
+            t.violation(f"level:common-gain-squared:{key_m}",
+                        f"{method}: Sy(G Y, G Yref) differs from G^2 Sy(Y, Yref) by {e:.3g} of the largest entry for the common gain G={far:g}: {where}; "
+                        f"returned arrays: {S.dtype} (largest |Im| {float(np.max(np.abs(S.imag))):.3g}) and {Sfar.dtype} "
+                        f"(largest |Im| {float(np.max(np.abs(Sfar.imag))):.3g}); {cfg}", case)
+        if kind(Sfar) != kind(S):
+            good = False
+            t.violation(f"level:complexness:{key_m}",
+                        f"{method}: the returned spectral matrix is {kind(S)} ({S.dtype}) for the records and {kind(Sfar)} ({Sfar.dtype}) for the same "
+                        f"records x {far:g}: {where}; {cfg}", case)
+        if good:
+            t.outcomes[f"far-gain-ok:{method}:G={lev_key(far) if lev == 1.0 else '1/level'}"] += 1
     if method == "per":
         # independent Welch estimate; lines >= 2
         if nf > 2:
@@ -282,9 +336,13 @@ def lattice_case(item):
                 t.outcomes["parseval-ok:" + ("segment-means-removed" if e_d <= e_r else "raw")] += 1
     if rough(nxseg) and not t.violations:
         t.outcomes[f"rough-nxseg-ok:lattice:{method}:{rough_key(nxseg)}"] += 1
-    if idx % 997 == 0:
+    if lev != 1.0 and not t.violations:
+        t.outcomes[f"level-ok:lattice:{method}:{lev_key(lev)}"] += 1
+        if method == "per" and list(refs) == list(range(n_all)) and n_all >= 2:
+            t.outcomes[f"level-ok:lattice:hermitian-psd-parseval:{lev_key(lev)}"] += 1
+    if idx % 997 == 0 or (lev != 1.0 and idx % 97 == 0):
         t.sample({"part": "lattice", "n_all": n_all, "refs": list(refs), "nxseg": nxseg, "pov": pov, "segments": nseg, "fs": fs,
-                  "method": method, "errors": errs})
+                  "method": method, "level": lev, "far_common_gain": far, "errors": errs})
     return t
 
 
@@ -293,7 +351,8 @@ def lattice_case(item):
 
 def delay_case(item):
     seed, cfg = item
-    idx, n, s, c, nxseg, d, g, pov, nseg, fs, method = cfg
+    idx, n, s, c, nxseg, d, g, pov, nseg, fs, method = cfg[:11]
+    lev = cfg[11] if len(cfg) > 11 else 1.0          # level of the whole record (source, copy and bystanders)
     t = Tally()
     t.states = 1
     case = {"part": "delay", "cfg": list(cfg), "seed": seed}
@@ -302,6 +361,8 @@ def delay_case(item):
     src = X[s].copy()
     X[c, :] = 0.0
     X[c, d:] = g * src[:-d]
+    if lev != 1.0:
+        X = lev * X
     try:
         f, S = sd_est(X, X, 1.0 / fs, nxseg, method, pov)
         S = np.asarray(S)
@@ -338,16 +399,19 @@ def delay_case(item):
         t.violation(f"delay:{method}",
                     f"{method}: Sy[s,c]/Sy[s,s] does not reproduce gain {g} and delay {d} samples (phase -2 pi f d/fs): {what}; "
                     f"with the opposite conjugation the median error is {eo:.3g}; n={n} source={s} copy={c} nxseg={nxseg} pov={pov} "
-                    f"segments={nseg} fs={fs}", case)
+                    f"segments={nseg} fs={fs}; record level {lev:g}, returned array {S.dtype} "
+                    f"(largest |Im| {float(np.max(np.abs(S.imag))):.3g}, largest |Re| {float(np.max(np.abs(S.real))):.3g})", case)
     else:
         t.outcomes[f"delay-ok:{method}"] += 1
         if rough(nxseg):
             t.outcomes[f"rough-nxseg-ok:delay:{method}:{rough_key(nxseg)}"] += 1
+        if lev != 1.0:
+            t.outcomes[f"level-ok:delay:{method}:{lev_key(lev)}"] += 1
         if float(np.median(opp[sl])) > 1.0:
             t.outcomes[f"delay:opposite-conjugation-would-fail:{method}"] += 1
-    if idx % 401 == 0:
+    if idx % 401 == 0 or (lev != 1.0 and idx % 53 == 0):
         t.sample({"part": "delay", "n": n, "source": s, "copy": c, "nxseg": nxseg, "delay": d, "gain": g, "pov": pov, "segments": nseg,
-                  "fs": fs, "method": method, "error": e, "median_error_opposite_conjugation": float(np.median(opp[sl]))})
+                  "fs": fs, "method": method, "level": lev, "error": e, "median_error_opposite_conjugation": float(np.median(opp[sl]))})
     return t
 
 
@@ -358,9 +422,10 @@ AMPS = (0.03, 1.0, 30.0)
 
 
 def sine_case(item):
-    """One item = one (nxseg, pov, length, fs, n): every interior grid line x every amplitude tuple."""
+    """One item = one (nxseg, pov, length, fs, n, record level): every interior grid line x every amplitude tuple."""
     seed, cfg = item
-    idx, n, nxseg, pov, nseg, fs = cfg
+    idx, n, nxseg, pov, nseg, fs = cfg[:6]
+    lev = cfg[6] if len(cfg) > 6 else 1.0            # level of the whole record: amplitudes lev * AMPS
     t = Tally()
     N = int(round(nseg * nxseg))
     tt = np.arange(N)
@@ -371,6 +436,8 @@ def sine_case(item):
             ph = payload.uniform(seed, f"c13/S/{nxseg}/{k}/{ai}/{n}", n, -np.pi, np.pi)
             A = np.array(amps) * np.exp(1j * ph)
             X = np.array([a * np.cos(2 * np.pi * k * tt / nxseg + p) for a, p in zip(amps, ph)])
+            if lev != 1.0:
+                X = lev * X
             try:
                 f, S = sd_est(X, X, 1.0 / fs, nxseg, "per", pov)
                 S = np.asarray(S)
@@ -397,15 +464,18 @@ def sine_case(item):
             if not worst <= TOL_SINE:
                 i, j = 0, n - 1
                 t.violation("sine:per",
-                            f"per: sinusoids at grid line {k} of nxseg={nxseg} (pov={pov}, {nseg} segments, fs={fs}) with amplitudes {amps}: "
+                            f"per: sinusoids at grid line {k} of nxseg={nxseg} (pov={pov}, {nseg} segments, fs={fs}) with amplitudes {amps} x record level {lev:g} "
+                            f"(returned array {S.dtype}): "
                             f"Sy[i,j]/Sy[i,i] differs from the complex amplitude ratio a_j/a_i by {worst:.3g} (relative); "
                             f"e.g. [0,{j}]: got {S[i, j, k] / S[i, i, k]!r}, required {A[j] / A[i]!r}", case)
             else:
                 t.outcomes["sine-ok"] += 1
                 if rough(nxseg):
                     t.outcomes[f"rough-nxseg-ok:sine:{rough_key(nxseg)}"] += 1
-    if idx % 23 == 0:
-        t.sample({"part": "sine", "n": n, "nxseg": nxseg, "pov": pov, "segments": nseg, "fs": fs, "lines": [1, nxseg // 2 - 1],
+                if lev != 1.0:
+                    t.outcomes[f"level-ok:sine:{lev_key(lev)}"] += 1
+    if idx % 23 == 0 or (lev != 1.0 and idx % 5 == 0):
+        t.sample({"part": "sine", "n": n, "nxseg": nxseg, "pov": pov, "segments": nseg, "fs": fs, "level": lev, "lines": [1, nxseg // 2 - 1],
                   "amplitude_tuples": len(AMPS) ** n, "worst_error": t.max_err.get("sine:amplitude-ratio")})
     return t
 
@@ -415,7 +485,8 @@ def sine_case(item):
 
 def class_case(item):
     seed, cfg = item
-    idx, cls, n, nxseg, pov, method, fs = cfg
+    idx, cls, n, nxseg, pov, method, fs = cfg[:7]
+    lev = cfg[7] if len(cfg) > 7 else 1.0            # level of the bound record
     import pyoma2.algorithms as alg
     from pyoma2.setup import SingleSetup
 
@@ -424,6 +495,9 @@ def class_case(item):
     case = {"part": "class", "cfg": list(cfg), "seed": seed}
     N = 6 * nxseg + nxseg // 2
     data = pay(seed, f"c13/C/{n}/{N}", (N, n)) * (1.0 + np.arange(n))
+    unit = data
+    if lev != 1.0:
+        data = lev * data
     kw = dict(name="a", nxseg=nxseg, method_SD=method, pov=pov)
     if cls == "pLSCF":
         kw["ordmax"] = 3
@@ -458,11 +532,44 @@ def class_case(item):
             t.violation(f"class:welch:{cls}", f"{cls}.result.Sy differs from the Welch estimate of the bound data with the run parameters "
                                               f"(nxseg={nxseg}, pov={pov}) by {e:.3g}; {cfg}", case)
             return t
+    if lev != 1.0:
+        # the square law through run(): the same class on the same record at unit level (both estimators)
+        try:
+            ss1 = SingleSetup(unit.copy(), fs=fs)
+            a1 = getattr(alg, cls)(**kw)
+            ss1.add_algorithms(a1)
+            ss1.run_by_name("a")
+            S1 = np.asarray(a1.result.Sy)
+        except Exception as e:
+            t.evaluations += 1
+            t.violation(f"raises:{type(e).__name__}:{cls}.run:{method}", f"{cls}(method_SD={method}) run raised {type(e).__name__}: {e}; {cfg} (unit level)", case)
+            return t
+        t.evaluations += 1
+        t.validated += 1
+        if S1.shape != S.shape:
+            t.violation(f"class:shape:{cls}:{method}", f"{cls}.result.Sy has shape {S.shape} at record level {lev:g} and {S1.shape} at unit level; {cfg}", case)
+            return t
+        e = float(np.max(np.abs(S - lev * lev * S1))) / (lev * lev * float(np.max(np.abs(S1))))
+        t.err(f"class:level:{method}", e)
+        bad = False
+        if not e <= TOL_LEVEL:
+            bad = True
+            t.violation(f"class:level:common-gain-squared:{cls}:{method}",
+                        f"{cls}.result.Sy of the record x {lev:g} differs from {lev:g}^2 x result.Sy of the record by {e:.3g} of the largest entry "
+                        f"(arrays {S.dtype}, largest |Im| {float(np.max(np.abs(S.imag))):.3g}, and {S1.dtype}); {cfg}", case)
+        if kind(S) != kind(S1):
+            bad = True
+            t.violation(f"class:level:complexness:{cls}:{method}",
+                        f"{cls}.result.Sy is {kind(S)} ({S.dtype}) for the record x {lev:g} and {kind(S1)} ({S1.dtype}) for the record itself; {cfg}", case)
+        if bad:
+            return t
+        t.outcomes[f"level-ok:class:{cls}:{method}"] += 1
+        t.outcomes[f"level-ok:class:{lev_key(lev)}"] += 1
     t.outcomes[f"class-ok:{cls}:{method}"] += 1
     if rough(nxseg):
         t.outcomes[f"rough-nxseg-ok:class:{cls}:{method}"] += 1
     if idx % 13 == 0:
-        t.sample({"part": "class", "class": cls, "n": n, "nxseg": nxseg, "pov": pov, "method": method, "fs": fs})
+        t.sample({"part": "class", "class": cls, "n": n, "nxseg": nxseg, "pov": pov, "method": method, "fs": fs, "level": lev})
     return t
 
 
@@ -478,7 +585,63 @@ ROUGH_SINE = (17, 26, 39)
 ROUGH_CLASS = (52, 65, 130, 1018)
 
 
+def ref_lists(n_all, kmax):
+    """reference lists of the level sub-lattice (n_all <= 4): every subset up to kmax, one descending list, data == reference"""
+    subs = [list(c) for k in range(1, min(kmax, n_all) + 1) for c in itertools.combinations(range(n_all), k)]
+    if n_all >= 2:
+        subs.append(list(range(n_all))[::-1][:min(kmax, n_all)])
+    if list(range(n_all)) not in subs:
+        subs.append(list(range(n_all)))
+    return subs
+
+
+LEVEL_NXSEG = (16, 64, 26, 39)                   # lattice, record-level sub-lattice (quick); 39: odd, periodogram only
+LEVEL_NXSEG_T = (16, 64, 256, 26, 39, 130)
+
+
+def level_points(thorough):
+    """Base records at the levels of LEVELS: channels 1..3 (thorough ..4) x every reference list x segment lengths (two powers of two, two
+    with a prime factor >= 13) x estimator x level. quick: overlap, length and fs rotate over (level, reference list, nxseg) so that every
+    level meets every fs, both lengths and both overlaps on every estimator; thorough: every overlap, length and fs rotating."""
+    out = []
+    for n_all in (range(1, 5) if thorough else range(1, 4)):
+        for ri, refs in enumerate(ref_lists(n_all, 4 if thorough else 3)):
+            for xi, nxseg in enumerate(LEVEL_NXSEG_T if thorough else LEVEL_NXSEG):
+                povs = ROUGH_POV[nxseg] if nxseg in ROUGH_POV else POVS
+                nsegs = (2, 3, 5.5)
+                for li, lev in enumerate(LEVELS):
+                    r = li + ri + xi + n_all
+                    if thorough:
+                        combos = [(pov, nsegs[(r + pi) % 3], FSS[(r // 3 + pi) % 3]) for pi, pov in enumerate(povs)]
+                    else:
+                        combos = [(povs[r % 2], (2, 5.5)[(r // 2) % 2], FSS[r % 3])]
+                    for pov, nseg, fs in combos:
+                        for method in (("per", "cor") if nxseg % 2 == 0 else ("per",)):
+                            out.append((None, n_all, refs, nxseg, pov, nseg, fs, method, lev))
+    return out
+
+
 def lattice(thorough):
+    """(idx, n_all, refs, nxseg, pov, nseg, fs, method, level of the base records, far common gain or None)"""
+    base = lattice_unit(thorough)
+    xs = sorted({c[3] for c in base})
+    ps = {x: sorted({c[4] for c in base if c[3] == x}) for x in xs}
+    ss = sorted({c[5] for c in base})
+    out = []
+    for c in base:
+        # unit-level points: the square law for a far common gain G on every point (thorough) / on one point in three (quick), chosen and
+        # rotated by the axis positions (so that every G meets every estimator, fs, overlap, length, nxseg and number of channels)
+        _, n_all, refs, nxseg, pov, nseg, fs, method = c
+        mi, fi = ("per", "cor").index(method), FSS.index(fs)
+        r = ps[nxseg].index(pov) + ss.index(nseg) + xs.index(nxseg) + n_all + len(refs) + refs[0]
+        far = LEVELS[(r // 3 + mi + fi) % len(LEVELS)] if (thorough or (r + mi) % 3 == 0) else None
+        out.append(tuple(c) + (1.0, far))
+    for c in level_points(thorough):
+        out.append((len(out),) + tuple(c[1:]) + (1.0 / c[8],))       # records at level L: common gain 1/L, back to unit level
+    return out
+
+
+def lattice_unit(thorough):
     out = []
     chans = range(1, 9) if thorough else range(1, 5)
     for n_all in chans:
@@ -574,6 +737,21 @@ def delay_lattice(thorough):
     # one long record per estimator (3 x 3 x 480 000 samples > 2**22)
     for method in ("per", "cor"):
         out.append((len(out), 3, 0, 2, 64, 1, -10.0, 0.0, 7500, 100.0, method))
+    # record level: the whole record (source, copy, bystander) x LEVELS; every gain x every level x both ends of the delay range (thorough:
+    # every delay up to 16, then 1, 2, 4, 8, 12, nxseg//64) x estimator on two powers of two and two lengths with a prime factor >= 13 (65: odd,
+    # periodogram only); 60 segments (the noisier record), half overlap (thorough: also none); fs and placement rotate over (gain, delay, level)
+    for xi, nxseg in enumerate((64, 256, 1024, 65, 130, 998) if thorough else (64, 256, 65, 130)):
+        dmax = nxseg // 64
+        ds = sorted({1, dmax}) if not thorough else range(1, dmax + 1) if nxseg <= 256 else sorted({1, 2, 4, 8, 12, dmax})
+        povs = ROUGH_POV[nxseg][:2] if nxseg in ROUGH_POV else (0.0, 0.5)
+        for di, d in enumerate(ds):
+            for gi, g in enumerate((0.1, -0.1, 1.0, -1.0, 10.0, -10.0)):
+                for li, lev in enumerate(LEVELS):
+                    for pov in (povs if thorough else povs[1:]):
+                        fs = (0.01, 102.4)[(gi // 2 + di + li) % 2]
+                        n, s, c = places[(gi + di + li + xi) % len(places)]
+                        for method in (("per", "cor") if nxseg % 2 == 0 else ("per",)):
+                            out.append((len(out), n, s, c, nxseg, d, g, pov, 60, fs, method, lev))
     return out
 
 
@@ -596,6 +774,15 @@ def sine_lattice(thorough):
                         if not thorough and fi != (pi + si + n) % 3:
                             continue
                         out.append((len(out), n, nxseg, pov, nseg, fs))
+    # record level: amplitudes LEVELS x AMPS (every line, every amplitude tuple) on one power of two, one even and one odd length with a
+    # prime factor >= 13 (thorough: also 32); overlap, length and fs rotate over (level, channels, nxseg) (thorough: every overlap)
+    for n in (2, 3):
+        for xi, nxseg in enumerate((16, 26, 17, 32) if thorough else (16, 26, 17)):
+            povs = ROUGH_POV[nxseg] if nxseg in ROUGH_POV else POVS
+            for li, lev in enumerate(LEVELS):
+                r = li + xi + n
+                for pi, pov in enumerate(povs if thorough else (povs[r % len(povs)],)):
+                    out.append((len(out), n, nxseg, pov, (2, 3, 5.5)[(li + 2 * xi + n + pi) % 3], FSS[(r + pi) % 3], lev))
     return out
 
 
@@ -616,6 +803,16 @@ def class_lattice(thorough):
                 for pov in (povs if thorough else (povs[(ci + ni + xi) % len(povs)],)):
                     for method in (("per", "cor") if nxseg % 2 == 0 else ("per",)):
                         out.append((len(out), cls, n, nxseg, pov, method, 50.0))
+    # record level: the bound record x LEVELS, every class x estimator x level on a power of two and a length with a prime factor >= 13
+    # (thorough: also 256 and the odd 65, periodogram only); channels and overlap rotate (thorough: every channel count)
+    for ci, cls in enumerate(("FDD", "EFDD", "FSDD", "pLSCF")):
+        for xi, nxseg in enumerate((64, 52, 256, 65) if thorough else (64, 52)):
+            povs = ROUGH_POV[nxseg] if nxseg in ROUGH_POV else POVS
+            for li, lev in enumerate(LEVELS):
+                for ni, n in enumerate((2, 3, 5) if thorough else ((2, 3)[(ci + xi + li) % 2],)):
+                    pov = povs[(ci + xi + li + ni) % len(povs)]
+                    for method in (("per", "cor") if nxseg % 2 == 0 else ("per",)):
+                        out.append((len(out), cls, n, nxseg, pov, method, 50.0, lev))
     return out
 
 
@@ -633,21 +830,40 @@ def explore(ctx):
                                                     for k in sorted({c[3] for c in L if rough(c[3])})},
                     "fs_note": "thorough: full product (nxseg >= 1024 with > 4 channels: fs = 1 only); quick: full product at nxseg 16, beyond "
                                "that one fs per point, rotating over (overlap, length, number of references) so that every fs meets every value of each",
-                    "methods": ["per", "cor"], "library_calls_per_point": 7},
+                    "methods": ["per", "cor"], "library_calls_per_point": "7, and 8 where the far common gain is evaluated",
+                    "record_level": {"levels": [1.0] + list(LEVELS),
+                                     "points_with_base_records_at_a_level_other_than_1": sum(1 for c in L if c[8] != 1.0),
+                                     "channels": sorted({c[1] for c in L if c[8] != 1.0}),
+                                     "reference_lists": sorted({tuple(c[2]) for c in L if c[8] != 1.0}),
+                                     "nxseg": sorted({c[3] for c in L if c[8] != 1.0}), "pov": sorted({c[4] for c in L if c[8] != 1.0}),
+                                     "length_in_segments": sorted({c[5] for c in L if c[8] != 1.0}), "fs": sorted({c[6] for c in L if c[8] != 1.0}),
+                                     "far_common_gain": {"unit-level points": "G in levels, rotating; thorough every point, quick every third",
+                                                         "points at level L": "G = 1/L",
+                                                         "points_evaluated": sum(1 for c in L if c[9] is not None)}}},
         "delay": {"points": len(D), "nxseg": sorted({c[4] for c in D}), "delays": "1..nxseg/64 (all up to 16, then 1..8,12,16,24,32,48,63,64)",
                   "gains": [0.1, -0.1, 1.0, -1.0, 10.0, -10.0], "pov": sorted({c[7] for c in D}), "segments": [60, 100], "fs": [0.01, 102.4],
                   "nxseg_with_prime_factor>=13": {str(k): {"delays": sorted({c[5] for c in D if c[4] == k}), "pov": sorted({c[7] for c in D if c[4] == k}),
                                                            "methods": sorted({c[10] for c in D if c[4] == k}),
                                                            "points": sum(1 for c in D if c[4] == k)}
                                                   for k in sorted({c[4] for c in D if rough(c[4])})},
-                  "placements(n,source,copy)": [(2, 0, 1), (2, 1, 0), (3, 0, 2), (3, 2, 1)], "methods": ["per", "cor"]},
+                  "placements(n,source,copy)": [(2, 0, 1), (2, 1, 0), (3, 0, 2), (3, 2, 1)], "methods": ["per", "cor"],
+                  "record_level": {"levels": [1.0] + list(LEVELS), "points_at_a_level_other_than_1": sum(1 for c in D if len(c) > 11),
+                                   "nxseg": sorted({c[4] for c in D if len(c) > 11}), "delays": sorted({c[5] for c in D if len(c) > 11}),
+                                   "gains": sorted({c[6] for c in D if len(c) > 11}), "pov": sorted({c[7] for c in D if len(c) > 11}),
+                                   "segments": sorted({c[8] for c in D if len(c) > 11}), "fs": sorted({c[9] for c in D if len(c) > 11})}},
         "sine": {"items": len(S), "nxseg": sorted({c[2] for c in S}), "lines": "every k in 1..floor(nxseg/2)-1", "amplitudes": list(AMPS), "channels": [2, 3],
                  "amplitude_tuples": "all of amplitudes^channels", "pov": list(POVS), "length_in_segments": [2, 3, 5.5], "fs": list(FSS),
                  "nxseg_with_prime_factor>=13": {str(k): {"pov": sorted({c[3] for c in S if c[2] == k}), "items": sum(1 for c in S if c[2] == k)}
-                                                 for k in sorted({c[2] for c in S if rough(c[2])})}},
+                                                 for k in sorted({c[2] for c in S if rough(c[2])})},
+                 "record_level": {"levels": [1.0] + list(LEVELS), "items_at_a_level_other_than_1": sum(1 for c in S if len(c) > 6),
+                                  "nxseg": sorted({c[2] for c in S if len(c) > 6}), "channels": sorted({c[1] for c in S if len(c) > 6}),
+                                  "amplitudes": "level x amplitudes, every tuple, every interior line"}},
         "classes": {"points": len(C), "classes": ["FDD", "EFDD", "FSDD", "pLSCF"], "channels": sorted({c[2] for c in C}),
                     "nxseg": sorted({c[3] for c in C}), "pov": sorted({c[4] for c in C}), "methods": ["per", "cor"],
-                    "nxseg_with_prime_factor>=13": {str(k): sum(1 for c in C if c[3] == k) for k in sorted({c[3] for c in C if rough(c[3])})}},
+                    "nxseg_with_prime_factor>=13": {str(k): sum(1 for c in C if c[3] == k) for k in sorted({c[3] for c in C if rough(c[3])})},
+                    "record_level": {"levels": [1.0] + list(LEVELS), "points_at_a_level_other_than_1": sum(1 for c in C if len(c) > 7),
+                                     "nxseg": sorted({c[3] for c in C if len(c) > 7}), "channels": sorted({c[2] for c in C if len(c) > 7}),
+                                     "oracle": "Welch ('per') and result.Sy(level x record) = level^2 result.Sy(record), same class, both estimators"}},
     }
     # payload records are generated once, before the workers are forked
     for c in L:
@@ -671,6 +887,15 @@ def explore(ctx):
                 "rough-nxseg-ok:sine:even", "rough-nxseg-ok:sine:odd",
                 *[f"rough-nxseg-ok:class:{c}:per" for c in ("FDD", "EFDD", "FSDD", "pLSCF")],
                 "rough-nxseg-ok:class:FDD:cor", "rough-nxseg-ok:class:pLSCF:cor")
+    # vacuity monitors of the record level: every level on every part and estimator, every far common gain, every class
+    ctx.require(*[f"level-ok:lattice:{m}:{lev_key(v)}" for m in ("per", "cor") for v in LEVELS],
+                *[f"level-ok:lattice:hermitian-psd-parseval:{lev_key(v)}" for v in LEVELS],
+                *[f"far-gain-ok:{m}:G={lev_key(v)}" for m in ("per", "cor") for v in LEVELS],
+                "far-gain-ok:per:G=1/level", "far-gain-ok:cor:G=1/level",
+                *[f"level-ok:delay:{m}:{lev_key(v)}" for m in ("per", "cor") for v in LEVELS],
+                *[f"level-ok:sine:{lev_key(v)}" for v in LEVELS],
+                *[f"level-ok:class:{c}:{m}" for c in ("FDD", "EFDD", "FSDD", "pLSCF") for m in ("per", "cor")],
+                *[f"level-ok:class:{lev_key(v)}" for v in LEVELS])
     if not any(k.startswith("parseval-ok") for k in ctx.tally.outcomes):
         ctx.require("parseval-ok")
 
